@@ -3,78 +3,9 @@
    exhaustive exploration, inside Coq, of EVERY interleaving of a few two-operation scenarios --
    the bounded analogue of the in-tree loom scenarios, including the close/drop races those lack. *)
 From SQ Require Import lib.Base lib.ListX gen.Gen_C17.
+From SQ Require Export model.SpscExplore.
 From SQ Require Import model.Spsc.
 Local Open Scope N_scope.
-
-Definition is_idle (p : pc) : bool := match p with Idle => true | _ => false end.
-
-(* the producer is inside a wake() on the receiver's waker that is going to invoke it *)
-Definition wake_pending_r (s : st) : bool :=
-  match ppc s with
-  | Wk k w => wk_targets_r_p k && negb (wk_is_drop k) &&
-      match w with
-      | W1 => negb (w_reg (rw s)) && negb (w_waking (rw s)) && w_slot (rw s)
-      | W2 => w_slot (rw s)
-      | W3 tk => tk
-      | W4 => true
-      end
-  | _ => false
-  end.
-Definition wake_pending_s (s : st) : bool :=
-  match cpc s with
-  | Wk k w => negb (wk_targets_r_c k) && negb (wk_is_drop k) &&
-      match w with
-      | W1 => negb (w_reg (sw s)) && negb (w_waking (sw s)) && w_slot (sw s)
-      | W2 => w_slot (sw s)
-      | W3 tk => tk
-      | W4 => true
-      end
-  | _ => false
-  end.
-
-(* parked: the last poll returned Pending, nothing has been started since, no wake-up delivered *)
-Definition parked_r (s : st) : bool := is_idle (cpc s) && cparked s && negb (rnotif s).
-Definition parked_s (s : st) : bool := is_idle (ppc s) && pparked s && negb (snotif s).
-
-(* on the real shared words: published tail differs from the receiver's head / channel closed *)
-Definition nonempty_or_closed (s : st) : bool := negb (is_empty (ch s) (tail s)) || negb (open s).
-Definition space_or_closed (cap : N) (s : st) : bool := negb (is_full (head s) (pt s) cap) || negb (open s).
-
-Definition no_lost_wakeup_at (cap : N) (s : st) : bool :=
-  implb (parked_r s && nonempty_or_closed s) (wake_pending_r s)
-  && implb (parked_s s && space_or_closed cap s) (wake_pending_s s).
-
-(* a pending wake-up is delivered by the waking thread's own next (at most four) steps *)
-Definition delivered_r (cap : N) (s : st) : bool :=
-  implb (wake_pending_r s) (rnotif (pstep false cap (pstep false cap (pstep false cap (pstep false cap s))))).
-Definition delivered_s (cap : N) (s : st) : bool :=
-  implb (wake_pending_s s) (snotif (cstep false cap (cstep false cap (cstep false cap (cstep false cap s))))).
-
-Definition p_enabled (y : sys) : bool :=
-  match ppc (y_st y) with Idle => match y_pp y with [] => false | _ => true end | Done => false | _ => true end.
-Definition c_enabled (y : sys) : bool :=
-  match cpc (y_st y) with Idle => match y_cp y with [] => false | _ => true end | Done => false | _ => true end.
-
-(* every interleaving from y (depth-first, no pruning): the predicate holds in every state; also no
-   unwritten slot is read, and what was received is what was pushed, in order *)
-Fixpoint explore (fuel : nat) (cap : N) (y : sys) : bool :=
-  match fuel with
-  | O => false
-  | S f =>
-    let s := y_st y in
-    no_lost_wakeup_at cap s && delivered_r cap s && delivered_s cap s && negb (bad s)
-    && (if p_enabled y then explore f cap (sys_step false cap y true) else true)
-    && (if c_enabled y then explore f cap (sys_step false cap y false) else true)
-  end.
-
-(* run a prefix sequentially (producer ops, then consumer ops), then explore *)
-Definition after (cap : N) (pp0 : list pop_t) (cp0 : list cop_t) : st :=
-  let y1 := fold_left (sys_step false cap) (repeat true 200) (mkSys (init cap) pp0 []) in
-  let y2 := fold_left (sys_step false cap) (repeat false 200) (mkSys (y_st y1) [] cp0) in
-  y_st y2.
-
-Definition scenario (cap : N) (pp0 : list pop_t) (cp0 : list cop_t) (pp : list pop_t) (cp : list cop_t) : bool :=
-  explore 80 cap (mkSys (after cap pp0 cp0) pp cp).
 
 (* internal capacity 2 (one usable slot); every interleaving of the two operations, every
    intermediate state.  (push vs poll and poll vs pop have too many interleavings for this naive
